@@ -352,6 +352,7 @@ func run(pc *propCfg, id, tier string, seed uint64, budget, nw int, replayFile, 
 		fmt.Println(l)
 	}
 	wall := time.Since(start).Seconds()
+	workersLost = len(died) + len(watchdogs)
 	writeEvidence(pc, id, tier, seed, agg, len(sigs), byVariant, nViol, lines, wall, budget, len(jobs))
 	fmt.Printf("%s %s: %d runs (%d non-trivial, %d distinct), %d steps, %d violation(s), %d known finding(s), %.1fs\n",
 		id, tier, agg.Runs, agg.NonTrivial, len(sigs), agg.Steps, nViol, len(lines), wall)
@@ -368,18 +369,28 @@ func run(pc *propCfg, id, tier string, seed uint64, budget, nw int, replayFile, 
 			return 2
 		}
 	}
-	if len(died) > 0 && exit == 0 {
-		// nothing explains why workers died: harness trouble, not a verdict
-		fmt.Fprintf(os.Stderr, "HARNESS-ERROR: %d worker(s) died and no violation was found by the others: %s\n", len(died), died[0])
-		return 2
-	}
+	lost := len(died) + len(watchdogs)
 	if len(watchdogs) > 0 {
-		// a run that does not come back is harness trouble unless a violation
-		// explains the tree's misbehaviour anyway
 		fmt.Fprintf(os.Stderr, "WATCHDOG: %d worker(s) were stopped by the per-run watchdog, e.g. %s\n", len(watchdogs), watchdogs[0])
-		if exit == 0 {
+	}
+	if lost > 0 && exit == 0 {
+		// Workers that died or got stuck without any violation to explain it are
+		// harness trouble, not a verdict. A few lost workers among many (a loaded
+		// machine, one pathological run) only cost coverage - what the others
+		// explored stands and the loss is recorded in the evidence; when half of
+		// them or more are lost the tree (or the harness) is not behaving and the
+		// check refuses to answer.
+		if 2*lost >= len(jobs) {
+			first := ""
+			if len(died) > 0 {
+				first = died[0]
+			} else {
+				first = watchdogs[0]
+			}
+			fmt.Fprintf(os.Stderr, "HARNESS-ERROR: %d of %d worker(s) were lost and no violation was found by the others: %s\n", lost, len(jobs), first)
 			return 2
 		}
+		fmt.Fprintf(os.Stderr, "WORKERS-LOST: %d of %d worker(s) were lost (coverage reduced, see evidence diagnostics)\n", lost, len(jobs))
 	}
 	return exit
 }
@@ -487,6 +498,9 @@ func outDir(sub string) string {
 	return filepath.Join(verifDir, sub)
 }
 
+// workersLost: workers that died or were stopped by the per-run watchdog in this check.
+var workersLost int
+
 func writeEvidence(pc *propCfg, id, tier string, seed uint64, agg *runner.Result, distinct int, byVariant map[string]int, nViol int, known []string, wall float64, budget, jobs int) {
 	cov := map[string]any{
 		"evaluations":         agg.Runs,
@@ -494,7 +508,7 @@ func writeEvidence(pc *propCfg, id, tier string, seed uint64, agg *runner.Result
 		"rule":                pc.rule,
 		"samples":             agg.Samples,
 		"nontrivial_runs":     agg.NonTrivial,
-		"diagnostics":         map[string]any{"inconclusive_runs": agg.Inconcl},
+		"diagnostics":         map[string]any{"inconclusive_runs": agg.Inconcl, "workers_lost": workersLost},
 		"scheduler_steps":     agg.Steps,
 		"simulated_seconds":   float64(agg.SimNanos) / 1e9,
 		"runs_per_hour":       int(float64(agg.Runs) / max(wall, 0.001) * 3600),
